@@ -265,7 +265,13 @@ func (b *builder) solid3(family string, depth int) (model3d.Solid, sinfo) {
 		s1, i1 := b.solid3(solidFamilies[b.rng.Intn(3)], depth-1)
 		s2, d2 := b.solidLeaf3()
 		s3, i3 := b.solid3(solidFamilies[b.rng.Intn(len(solidFamilies))], depth-1)
-		switch b.rng.Intn(3) {
+		switch b.rng.Intn(6) {
+		case 3:
+			return model3d.StackSolids(s2, s1, s3), sinfo{desc: "stacksolids(" + d2 + "," + i1.desc + "," + i3.desc + ")"}
+		case 4:
+			return model3d.StackedSolid{s1, s2, s3}, sinfo{desc: "stacked(" + i1.desc + "," + d2 + "," + i3.desc + ")"}
+		case 5:
+			return model3d.NewSolidMux([]model3d.Solid{s2, s1, s3}), sinfo{desc: "solidmux(" + d2 + "," + i1.desc + "," + i3.desc + ")"}
 		case 0:
 			return model3d.JoinedSolid{s2, s1, s3}, sinfo{desc: "joined(" + d2 + "," + i1.desc + "," + i3.desc + ")"}
 		case 1:
